@@ -1088,6 +1088,12 @@ class Process(StateMachine, persistence.Savable, metaclass=ProcessStateMachineMe
 
     # region State related methods
 
+    def transition_to(self, new_state: Optional[state_machine.State], **kwargs: Any) -> None:
+        """Transition to the new state with this process on top of the process stack, such that the lifecycle hooks
+        (``on_run``, ``on_finish``, ...) and the listeners called by the transition see it as ``Process.current()``."""
+        with self._process_scope():
+            super().transition_to(new_state, **kwargs)
+
     def transition_failed(
         self,
         initial_state: Hashable,
@@ -1157,8 +1163,9 @@ class Process(StateMachine, persistence.Savable, metaclass=ProcessStateMachineMe
             else:
                 msg_text = state_msg[MESSAGE_TEXT_KEY]
 
-            call_with_super_check(self.on_pausing, msg_text)
-            call_with_super_check(self.on_paused, msg_text)
+            with self._process_scope():
+                call_with_super_check(self.on_pausing, msg_text)
+                call_with_super_check(self.on_paused, msg_text)
         finally:
             self._pausing = None
 
@@ -1228,7 +1235,8 @@ class Process(StateMachine, persistence.Savable, metaclass=ProcessStateMachineMe
                 self._set_interrupt_action(None)
             return True
 
-        call_with_super_check(self.on_playing)
+        with self._process_scope():
+            call_with_super_check(self.on_playing)
         return True
 
     @event(from_states=process_states.Waiting)
